@@ -79,7 +79,7 @@ def catalogue(tier: str):
         # the wider ones below keep one
         one = {'restarts': 1}
         rows += [
-            ('chain2-f2-r2', P1(shapes['chain2']), 2, {'restarts': 2}, True),
+            ('chain2-f2', P1(shapes['chain2']), 2, dict(one), True),
             ('and-f2', P1(shapes['and']), 2, dict(one), True),
             ('prevb-f2-broadcast', P1(shapes['prevb']), 2,
              {'preamble': [('broadcast', ['2'], ['b'],
@@ -89,7 +89,7 @@ def catalogue(tier: str):
             ('chain2-f2-stopcp1', P1(shapes['chain2']), 2,
              {'options': {'stopcp': '1'}, 'stop': 1, **one}, True),
         ]
-        rows = [r for r in rows if r[0] != 'chain2-f2']
+        rows = rows[1:]     # (chain2-f2 is replaced by its 1-restart twin)
     specs = []
     for name, secs, fcp, extra, gf in rows:
         s = spec_from(secs, 1, fcp, name=name, **extra)
@@ -158,7 +158,9 @@ def run(ctx: Ctx) -> Result:
                 'stop modes': list(STOPS),
                 'stop offered at': 'every main-loop boundary',
                 'restarts per execution': ctx.pick(
-                    '1 (2 in the stop-task workflow)', 2)},
+                    '1 (2 in the stop-task workflow)',
+                    '2 (1 in the wider workflows: chain2-f2*, and-f2, '
+                    'prevb-f2-broadcast)')},
         assumptions=ASSUME, min_states=100,
         extra_cov={'observed': dict(sorted(counts.items()))})
 
